@@ -304,10 +304,20 @@ def bytes_program(rng):
            ("firstb", "fn firstb(s: string) -> int {\n    return (char_at s 0)\n}\n"),
            ("isasc", "fn isasc(s: string) -> bool {\n    let mut i: int = 0\n    while (< i (str_length s)) {\n        if (> (char_at s i) 127) { return false }\n        set i (+ i 1)\n    }\n    return true\n}\n"),
            ("lenb", "fn lenb(s: string) -> int {\n    return (str_length s)\n}\n")]
+    # a string assembled at run time must equal the same text written as a literal, and find it as a map key
+    fns += [("joined", "fn joined(a: string, b: string, whole: string) -> int {\n    let j: string = (+ a b)\n    let mut r: int = 0\n    if (== j whole) {\n        set r (+ r 1)\n    }\n    if (str_equals (str_concat a b) whole) {\n        set r (+ r 10)\n    }\n"
+                       "    if (== (+ (+ a \"\") b) (+ a (+ \"\" b))) {\n        set r (+ r 100)\n    }\n    if (str_contains j b) {\n        set r (+ r 1000)\n    }\n    return r\n}\n"),
+            ("looked", "fn looked(a: string, b: string, whole: string) -> int {\n    let hm: HashMap<string, int> = (map_new)\n    (map_put hm whole 7)\n    (map_put hm \"plain\" 1)\n    let k: string = (+ a b)\n    return (+ (* (map_get hm k) 2) (map_get hm \"plain\"))\n}\n")]
     calls = []
     for w in words[:5]:
         for f in ("bytesum", "firstb", "isasc", "lenb"):
             calls.append((f, '(%s "%s")' % (f, w)))
+    for w in words[:6]:
+        cut = rng.randrange(len(w) + 1)
+        calls.append(("joined", '(joined "%s" "%s" "%s")' % (w[:cut], w[cut:], w)))
+        calls.append(("joined", '(joined "%s" "%s" "%s")' % (w[:1], w[1:], w)))
+    for w in words[:4]:
+        calls.append(("looked", '(looked "%s" "%s" "%s")' % (w[:len(w) // 2], w[len(w) // 2:], w)))
     return shadowed(fns, calls)
 
 
